@@ -44,6 +44,7 @@ type Engine struct {
 	ghostSorts  map[string]string
 	ghostFields map[string]string
 	gfields     map[string]*GhostField // pkgPath + " " + name
+	effectAssumptions map[string]bool
 	ghostViews  map[string]string
 	presums     map[string]string
 	predDepth   int
@@ -63,7 +64,7 @@ const repoModulePrefix = "github.com/open-telemetry/otel-arrow"
 
 func loadEngine(dir string, patterns []string, assumedDir string) (*Engine, error) {
 	e := &Engine{synths: map[string]*synthPkg{}, checkCache: map[string]*checked{}, ghostSorts: map[string]string{},
-		ghostFields: map[string]string{}, gfields: map[string]*GhostField{}, ghostViews: map[string]string{}, presums: map[string]string{},
+		ghostFields: map[string]string{}, gfields: map[string]*GhostField{}, effectAssumptions: map[string]bool{}, ghostViews: map[string]string{}, presums: map[string]string{},
 		funcIndex: map[string]*ssa.Function{}, allPkgs: map[string]*packages.Package{}, globals: map[*types.Var]*ssa.Global{}}
 	e.fset = token.NewFileSet()
 	cfg := &packages.Config{Mode: packages.LoadAllSyntax, Dir: dir, BuildFlags: []string{"-tags=verif"}, Fset: e.fset,
